@@ -40,6 +40,8 @@ type c11Program struct {
 	WantFail bool              `json:"want_fail,omitempty"` // the undisturbed run is expected to fail (error / timeout)
 	MapOrder string            `json:"map_order"`           // VERIF_MAPORDER of every run of this program ("" = all map ranges in sorted key order)
 	Base     string            `json:"base,omitempty"`      // name without the map order suffix
+	Stdin    string            `json:"stdin,omitempty"`     // standard input of the process (families of c11_*.go)
+	Broken   string            `json:"broken,omitempty"`    // "stdout", "stderr" or "stdout+stderr": these are pipes nobody reads any more (family pipes)
 }
 
 func c11Programs(thorough bool) []c11Program {
@@ -127,7 +129,12 @@ func c11ExecT(dir string, p c11Program, env []string, timeout time.Duration) pro
 		env = append([]string{"VERIF_MAPORDER=" + p.MapOrder}, env...)
 	}
 	env = append(env, "VERIF_POLL_POINTS=1") // a signal can also arrive right before any look at the cancellation
-	out := procx.Exec(procx.Run{Dir: dir, Args: p.Args, Env: env, Timeout: timeout})
+	var out procx.Outcome
+	if p.Broken != "" {
+		out = c11ExecBroken(dir, p, env, timeout)
+	} else {
+		out = procx.Exec(procx.Run{Dir: dir, Args: p.Args, Env: env, Stdin: p.Stdin, Timeout: timeout})
+	}
 	if held != nil {
 		syscall.Flock(int(held.Fd()), syscall.LOCK_UN)
 		held.Close()
@@ -154,6 +161,12 @@ func c11Judge(c *core.Ctx, dir string, p c11Program, out procx.Outcome, final ma
 	cls := inj.Kind
 	if inj.Kind == "fail" {
 		cls = "fault-at-" + pt.Name
+	}
+	if inj.Kind == "signal" && inj.Arg != "INT" && inj.Arg != "TERM" && inj.Arg != "QUIT" {
+		cls = "signal-" + inj.Arg // a signal the property does not name: a class of its own
+	}
+	if p.Broken != "" {
+		cls = "broken-pipe-" + p.Broken
 	}
 	if out.Killed {
 		c.Violate("hang:"+cls, where+": no exit within 40 s", payload)
@@ -399,7 +412,7 @@ func c11Signal2Env(k int, arg string) []string {
 }
 
 func c11Replay(c *core.Ctx, payload json.RawMessage) {
-	if c11CompetingReplay(c, payload) {
+	if c11CompetingReplay(c, payload) || c11Panic2Replay(c, payload) {
 		return
 	}
 	var p c11Payload
@@ -409,7 +422,9 @@ func c11Replay(c *core.Ctx, payload json.RawMessage) {
 	}
 	dir := core.Scratch("c11")
 	tr := filepath.Join(filepath.Dir(dir), "c11trace.txt")
-	ref := c11Exec(dir, p.Program, []string{"VERIF_TRACE=" + tr})
+	refProg := p.Program
+	refProg.Broken = "" // what a completed run leaves is taken from a run whose output is read
+	ref := c11Exec(dir, refProg, []string{"VERIF_TRACE=" + tr})
 	final := drv.DirSnapshot(dir)
 	env := []string{}
 	switch p.Inj.Kind {
